@@ -60,7 +60,34 @@ def run_check(tier, seed):
                             if rng.random() < 0.7:
                                 v.update({"major": rng.randint(0, 9), "minor": rng.randint(0, 9), "patch": rng.randint(0, 9)})
                             cases.append(f"RENP {rng.choice(['semver', 'pep440'])} {hx(p)} {zgen.enc_vars(v)}")
-    correspond(run, "all_22_presets_x_tier_states", cases, **kw)
+    res = correspond(run, "all_22_presets_x_tier_states", cases, **kw)
+    # metamorphic oracle on the implementation alone: a smart preset must render exactly like the fixed preset of the tier that
+    # (dirty, distance>0, pre_release, post) select - whatever the other variables are
+    pairs, fixed_cases = [], []
+    for c, r, m, v in res:
+        f = c.split(" ")
+        name = unhx(f[2])
+        fam = "standard" if name.startswith("standard") else "calver"
+        kind = name[len(fam):]
+        if kind not in ("", "-no-context", "-context"):
+            continue
+        # decode the four inputs from the vars encoding: fields 3.. = major minor patch epoch pre post dev distance dirty ...
+        pre, post, dist, dirty = f[7], f[8], f[10], f[11]
+        d = dirty == "1"
+        ahead = dist not in ("~", "0")
+        tier = "-prerelease-post-dev" if d else "-prerelease-post" if (ahead or (pre != "~" and post != "~")) else "-prerelease" if pre != "~" else ""
+        ctx = {"": d or ahead, "-no-context": False, "-context": True}[kind]
+        fixed = fam + "-base" + tier + ("-context" if ctx else "")
+        fixed_cases.append(" ".join(f[:2] + [hx(fixed)] + f[3:]))
+        pairs.append((c, r, fixed))
+    fixed_res = run_lines([ZVH], fixed_cases)
+    run.evaluations += len(fixed_cases)
+    for (c, r, fixed), fr in zip(pairs, fixed_res):
+        if r != fr:
+            run.add_violation("oracle", {"stream": "smart_preset_equals_fixed_preset_of_its_tier", "request": c, "described": describe(c),
+                                         "impl_reply": r, "fixed_preset": fixed, "impl_reply_fixed_preset": fr,
+                                         "oracle": "tier must be chosen solely from dirty / distance>0 / pre_release / post"}, True)
+    run.streams["smart_preset_equals_fixed_preset_of_its_tier"] = {"cases": len(fixed_cases)}
     run.extra["preset_tier_grid"] = "22 presets x dirty{None,false,true} x distance{None,0,3} x pre_release{None,a1,rc} x post{None,0,2}"
     return run
 
